@@ -124,7 +124,8 @@ def make_case(i, rng, tier):
         recs.append(dict(kind="wrong-type", cls="arg", depth=0, regions=[]))
     main = common.stray_cc(rng, common.spec("main", root, data, cc, enc, strict=True, source="counting"))
     tasks, sched = common.perturb(rng, [main], p_by=0.1, roots=True)
-    return {"input": {"root": root, "cc": cc, "enc": enc, "label": label}, "faults": recs, "tasks": tasks, "schedule": sched}
+    return {"input": {"root": root, "cc": cc, "enc": enc, "label": label, "threads": rng.randrange(1 << 30) if rng.random() < 0.001 else None},
+            "faults": recs, "tasks": tasks, "schedule": sched}
 
 
 def check(case):
@@ -154,6 +155,9 @@ def check(case):
         res.count("pull-bound-checked")
         if stops > 1:
             res.count("source-polled-again-after-exhaustion")
+    if case["input"].get("threads") is not None and len(t.spec["data"]) < 3000:
+        sp = dict(t.spec, source="bytes")
+        common.check_threads(res, "C06", [dict(sp, id="t0"), dict(sp, id="t1"), dict(sp, id="t2")], case["input"]["threads"], label=arg)
     if not (o.ok and not o.unspecified):
         res.nontrivial(root, t.spec.get("cc"), t.spec.get("enc"), t.spec["data"])
     if o.unspecified:
